@@ -144,6 +144,8 @@ LinesRefine ==
          /\ lheld = hold
          /\ A!ValidDist
          /\ A!NoNegativeCost
+\* with the repair (FoldSellLines = TRUE) nothing is left to merge: the legs are the same records for every order
+DesignLegsIdentical == (Both /\ lpc = "done" /\ FoldSellLines) => (LegSet(llegs) = LegSet(legs) /\ Len(llegs) = Len(legs))
 LinesRefuseUnabsorbable == (LTerminated /\ pc \notin {"idle"}) => (A!MustRefuse => lpc = "refused")
 
 \* one LINES record per behaviour: the lines in their order and the machine's exact outcome
